@@ -145,9 +145,13 @@ func (s *Modifier) ModifyResponse(res *http.Response) error {
 			return err
 		}
 
-		if start > end {
+		if start > end || start < 0 || int64(start) >= info.Size() {
 			res.StatusCode = http.StatusRequestedRangeNotSatisfiable
 			return nil
+		}
+		// A last position beyond the end means "through the last byte".
+		if int64(end) >= info.Size() {
+			end = int(info.Size()) - 1
 		}
 
 		ranges = append(ranges, []int{start, end})
